@@ -306,6 +306,31 @@ def eval_fault(ctx, case):
             out = ('raised', e)
     finally:
         chk.target_fn = orig
+    # a check of the caller's own - a SafetyCheck subclass whose __call__ reports through its return value instead of
+    # raising: a false verdict is not a pass (how the refusal is reported - SafetyCheckFailed or an error about the
+    # unexpected result - is not pinned; returning normally is what may not happen)
+    if hasattr(F, 'SafetyCheck') and case['check_index'] == 0:
+        for verdict_value in (False, 0, '', 'failed'):
+            class Reporting(F.SafetyCheck):
+                def __call__(self):
+                    return verdict_value
+            extra = Reporting('zz_reporting_check_%r' % (verdict_value,), lambda: None)
+            try:
+                insp.add_safety_check(extra)
+            except BaseException:  # noqa
+                break
+            try:
+                try:
+                    insp.safety_check()
+                    refused = False
+                except BaseException:  # noqa
+                    refused = True
+            finally:
+                insp._safety_checks.pop(extra.name, None)
+            ctx.clause('check-reporting-a-false-verdict-is-not-a-pass')
+            if not refused:
+                ctx.fail('check-reporting-a-false-verdict-is-not-a-pass', case, {'returned_by_the_check': repr(verdict_value)})
+                return
     ctx.clause('fault-in-check-is-failure')
     ctx.h('fault: inspector/check x exception', '%s/%s x %s' % (name, target, case['exc']))
     if out[0] != 'failed':
